@@ -24,7 +24,7 @@ PROPERTY = "C18"
 LEVEL = "model_checking"
 OPTIONS = {"quick": {"max_paths": 200000, "unit_budget_s": 600}, "thorough": {"max_paths": 2000000, "unit_budget_s": 3300}}
 BOUNDS = {
-    "quick": {"regex": "all compiled patterns, pump length unbounded (fixpoint)", "scanner": "all strings of length <= 5 over code points < U+0800", "receive": "17 seed messages + one trailing element with symbolic tag / content; termination under a 10 s per-path watchdog"},
+    "quick": {"regex": "all compiled patterns, pump length unbounded (fixpoint)", "scanner": "all strings of length <= 5 over code points < U+0800", "receive": "17 seed messages + one trailing element with symbolic tag / content; termination under a 10 s per-path watchdog", "big_integers": "4 seed messages x every constructed value + one appended element whose tag number is any value below 2**42 (six symbolic identifier octets): no left shift by an input-chosen amount that can exceed 2**20 bits"},
     "thorough": {"regex": "same", "scanner": "all strings of length <= 7 over code points < U+0800, length <= 5 over all scalar values"},
 }
 OUTSIDE = [
@@ -32,6 +32,7 @@ OUTSIDE = [
     "wall-clock time is only measured when replaying a witness",
     "the residue re-parse cost of receive() (linear per call in residue + chunk) is argued from C02's lemma, not measured symbolically",
     "nesting deep enough to hit the interpreter recursion limit",
+    "big-integer cost other than left shifts by a symbolic amount (multiplication / power with symbolic operands of unbounded size), memory in general",
 ]
 ASSUMPTIONS = ["sre explores alternatives in the priority order modelled by the automaton; empty-iteration guards make candidates that differ only by non-consuming iterations harmless (such candidates are rejected by concrete replay and listed in the notes)"]
 EXPLANATION = "z3 Datalog fixpoint over regex product automata (no length bound) + symbolic execution of the filter scanner with structural progress obligations"
@@ -56,6 +57,14 @@ def units(tier):
     for name in _seed_lengths():
         side = "server" if name in common.REQUESTS else "client"
         us.append({"name": f"recv_trailing_{name}", "shape": {"kind": "recv", "seed": name, "side": side, "pre": "search" if side == "client" else "fresh"}})
+    # the same, with an element whose (context-specific) tag number is encoded in six identifier
+    # octets - any number below 2**42 - appended to each constructed value of the richest request
+    # and response in turn: wherever unknown elements are inspected or skipped, the work must not
+    # depend on the NUMBER the peer wrote (engine cost obligation, see sx/core.py PathCost)
+    for name in ("search_request", "search_entry", "bind_sasl", "extended_response"):
+        side = "server" if name in common.REQUESTS else "client"
+        for j in range(_constructed_count(name)):
+            us.append({"name": f"recv_hightag_{name}_{j}", "shape": {"kind": "hightag", "seed": name, "node": j, "side": side, "pre": "search" if side == "client" else "fresh"}})
     if tier == "thorough":
         for n in range(1, 6):
             parts = [None] if n < 4 else list(range(8))
@@ -67,11 +76,54 @@ def units(tier):
 PART_CHARS = ["(", ")", "&|!", "=", "*", "\\", " ", None]  # first character classes used to split the work
 
 
+def _constructed(root):
+    out = []
+
+    def walk(n):
+        if n.cons:
+            out.append(n)
+            for k in n.kids:
+                walk(k)
+
+    walk(root)
+    return out
+
+
+def _constructed_count(name):
+    import importlib
+
+    import sx.harness as H
+    import sx.loader as loader
+    from checks import c04, common
+
+    loader.load_real()
+    lib = H.Lib(lambda n: importlib.import_module(f"sansldap.{n}"), None)
+    seed = common.seed_bytes(H.RealCtx(lib, {}), name)
+    (root,) = c04.parse(seed, 0, len(seed))
+    return len(_constructed(root))
+
+
+def _with_high_tag(ctx, seed, j):
+    from checks import c04
+
+    (root,) = c04.parse(seed, 0, len(seed))
+    target = _constructed(root)[j]
+    tn = ctx.bytes("ht.tn", 6)
+    for i in range(5):
+        ctx.assume(tn[i] >= 128)
+    ctx.assume(tn[5] < 128)
+    extra = c04._one(ctx, 0x9F) + tn + bytes([0])
+    return c04.encode(root, lambda n: {"append": extra} if n is target else {})
+
+
 def body(ctx, shape):
-    if shape.get("kind") == "recv":
+    if shape.get("kind") in ("recv", "hightag"):
         from checks import common
 
-        data = common.with_trailing_element(ctx, common.seed_bytes(ctx, shape["seed"]), "x")
+        if shape["kind"] == "hightag":
+            data = _with_high_tag(ctx, common.seed_bytes(ctx, shape["seed"]), shape["node"])
+        else:
+            data = common.with_trailing_element(ctx, common.seed_bytes(ctx, shape["seed"]), "x")
         sess = common.make_session(ctx, shape["side"], shape["pre"])
         try:
             r = sess.receive(data)
